@@ -198,6 +198,37 @@ func checkC14(c *Ctx) {
 			return ""
 		})
 
+	// 2a'. the response is refused only for bytes that are really there: every path of every method
+	//      that answers 413 or latches the limit has found written+len(b) over the limit.  A declared
+	//      Content-Length is not a body (HEAD, 304 carry one without sending a byte).
+	var mnames []string
+	for n, m := range w.Methods {
+		// entry points only: unexported helpers are judged inlined into the methods that call them
+		if m.Object() != nil && m.Object().Exported() {
+			mnames = append(mnames, n)
+		}
+	}
+	sort.Strings(mnames)
+	for _, n := range mnames {
+		c.traceRule("refused-only-for-bytes", w.Key+"."+n, w.Methods[n], c.rwSpec(w),
+			"413 is sent / the limit is latched only on paths that found written+len(b) > limit",
+			func(t *Trace) string {
+				refusal := ""
+				for _, it := range t.Items {
+					if it.Label == "emb:WriteHeader(k:413)" || it.Label == "store limitReached := k:true" || it.Label == "status:413" {
+						refusal = it.Label
+					}
+				}
+				if refusal == "" {
+					return ""
+				}
+				if r, _, ok := c.findRel(t, "fld:"+w.Key+".written + len(", "fld:"+w.Key+".limit", 0, -1); ok && r.Pred == "" && r.Lo >= 1 {
+					return ""
+				}
+				return "the response is refused (" + refusal + ") on a path that has not found written+len(b) over the limit: a response that only declares a large Content-Length and sends no body (HEAD, 304) is within the limits and must pass unchanged"
+			})
+	}
+
 	// 2b. within the limits the exchange is left alone: the recorded status goes out as recorded, no
 	//     header is touched, the limit is not latched
 	fns := map[string]*ssa.Function{w.Key + ".Write": wr}
